@@ -35,6 +35,9 @@ def run(ctx):
     ctx.alias = {'R1': 'R4'}
     c05.r1_selected_set(ctx)
     ctx.alias = {}
+    # after the projection only lines whose every remaining cell is a placeholder are dropped
+    from .exporter_facts import check_nullish_tables
+    check_nullish_tables(ctx, 'R5')
 
 
 def r1b_body_loop(ctx):
